@@ -36,15 +36,29 @@ struct Mutex {
 	void unlock_shared();
 };
 
-// PolGeo: unaligned map with slabsize != sb_size (distinguishes the two in alignment rules).
+// PolGeo: unaligned map with slabsize != sb_size (distinguishes the two in alignment rules). Its constants are declared
+// with a 32-bit unsigned type: the pool must bring them to size_t before it builds address masks from them.
 struct PolGeo {
-	static constexpr size_t slabsize = 1 << 14;
-	static constexpr size_t sb_size = 1 << 16;
-	static constexpr size_t pagesize = 0x1000;
+	static constexpr unsigned int slabsize = 1 << 14;
+	static constexpr unsigned int sb_size = 1 << 16;
+	static constexpr unsigned int pagesize = 0x1000;
 	static constexpr int num_buckets = 8;
 	uintptr_t map(size_t);
 	void unmap(uintptr_t, size_t);
 };
+
+// Positive example for the width rules (B9.no-narrowing-store, B9.mask-width): the engine must recognise both on every run.
+struct WidthProbe { unsigned int narrow; unsigned short events; };
+inline void probe_width_counter(WidthProbe &p) { p.events++; }
+inline void probe_width_store(WidthProbe &p, size_t v) { p.narrow = v; }
+// Positive example for O.init-reads-initialised: a member initialised from itself.
+struct SelfInitProbe { int a; int b; SelfInitProbe(int v) : a{a + v}, b{v} { } };
+inline int probe_self_init(int v) { SelfInitProbe p(v); return p.b; }
+// Positive example for Y.nonnull-contract: a declaration that promises more than the body keeps.
+[[gnu::returns_nonnull]] inline void *probe_attr_nonnull(bool b, void *p) { if(b) return p; return nullptr; }
+inline void probe_width_countdown(unsigned long n, int *a) { for(long i = 9; i >= n; i--) a[i] = 0; }
+inline int probe_width_clz(unsigned long v) { return __builtin_clz(v); }
+inline uintptr_t probe_width_mask(uintptr_t x, unsigned int a) { return x & ~(a - 1); }
 
 } // namespace wit
 
